@@ -425,7 +425,7 @@ def gen_case_sub(rng, tier):
         c['cond'] = ['sub', [['var', v] for v in sub_sel], body]
         c['sel'] = [['var', k] for k in rng.sample(avail, len(avail))]
         c['form'] = 'set_of' if len(avail) > 1 else rng.choice(['entity', 'set_of'])
-    if rng.random() < 0.25:
+    if rng.random() < 0.35:
         # a sub-query used as a comparison OPERAND through an attribute:  x.attr <op> an(entity(i, c_i)).attr'  - i is a further
         # variable that appears nowhere else in the query
         i = 8
@@ -448,7 +448,7 @@ def gen_case_sub(rng, tier):
                 ci = ['cmp', '==', ['map', ['f', F['peer']], ['var', outer]], ['var', i]]
             sub = ['subq', i, ci, ['map', ['f', F[rng.choice('ab')]], ['var', i]], 'the']
         cmp_ = ['cmp', rng.choice(OPS), lhs, sub] if the_operand or rng.random() < 0.6 else ['cmp', rng.choice(OPS), sub, lhs]
-        if not the_operand and rng.random() < 0.4:
+        if not the_operand and rng.random() < 0.6:
             # the comparison with the sub-query operand as a BRANCH OF A DISJUNCTION (its left branch is asked for its false rows
             # too: the operand must still range over the sub-query's solutions only), also below a conjunction
             r = rng.random()
@@ -506,9 +506,14 @@ def gen_case_flat(rng, tier, cond_only=False):
     elif r < 0.85:
         cond = ['and', ['cmp', rng.choice(OPS), ['map', ['f', F['a']], ['var', 1]], ['lit', rng.choice(INT_ALPHA)]],
                 ['cmp', rng.choice(ops), flat, ['lit', rng.choice(INT_ALPHA)]], 'fn']
-    elif r < 0.93:
+    elif r < 0.9:
         cond = ['or', ['cmp', rng.choice(ops), flat, ['lit', rng.choice(INT_ALPHA)]],
                 ['cmp', '==', flat, ['map', ['f', F['b']], ['var', 1]]], 'fn']
+    elif r < 0.96:
+        # the left condition binds parent and element, the right one relates the element to the parent (its verdict differs between
+        # the elements of one parent)
+        cond = ['and', ['cmp', rng.choice(ops), flat, ['lit', rng.choice(INT_ALPHA)]],
+                ['cmp', rng.choice(ops), flat, ['map', ['f', F[rng.choice('ab')]], ['var', 1]]], rng.choice(['fn', 'args'])]
     else:
         cond = ['in', flat, ['map', ['f', F['pair']], ['var', 1]]]
     if cond_only or rng.random() < 0.2:
